@@ -169,6 +169,28 @@ func c04One(r *vk.Reporter, o *Obfuscator, ref *vk.RefCodec, rng *mrand.Rand, si
 	if d := frameEq(&back2, sid, seq, closing, payload); d != "" {
 		return "foreign-decode", "Cloak decodes a reference-encoded message differently: " + d
 	}
+	// (3b) plain method: messages without a dedicated nonce trailer (extra length 0..7, the last 8
+	// bytes of payload+extra key the header cipher) - what older encoders of the same wire format emit
+	if ref.TagLen() == 8 && o.payloadCipher == nil {
+		ex := rng.IntN(8)
+		if len(payload)+ex < 8 {
+			ex = 8 - len(payload)
+		}
+		extra := make([]byte, ex)
+		rand.Read(extra)
+		smsg, err := ref.EncodePlainShort(vk.RefFrame{StreamID: sid, Seq: seq, Closing: closing, Payload: payload}, extra)
+		if err != nil {
+			return "harness", err.Error()
+		}
+		var back3 Frame
+		if err := o.deobfuscate(&back3, append([]byte{}, smsg...)); err != nil {
+			return "foreign-decode", fmt.Sprintf("Cloak rejects a plain-method message whose extra length is %d (payload %d bytes, no dedicated nonce trailer): %v", ex, len(payload), err)
+		}
+		if d := frameEq(&back3, sid, seq, closing, payload); d != "" {
+			return "foreign-decode", fmt.Sprintf("Cloak decodes a plain-method message with extra length %d differently: %s", ex, d)
+		}
+		r.Count("plain_short_trailer_messages", 1)
+	}
 	return "", ""
 }
 
